@@ -16,7 +16,7 @@ C19.i  token text is NUL-free: literal scanners diagnose a raw NUL byte
 import math
 import facts
 from facts import AnalysisBroken, children, unwrap, unwrap_all, walk
-from eai import Interp, Obj, Ptr, Sym, SV, Terminal, Unsupported, StructVal, explore, Budget
+from eai import Interp, Obj, Ptr, Sym, SV, Terminal, Unsupported, StructVal, explore, Budget, read_cstr
 import cfg as cfgmod
 from cfg import cfgs, callee_name
 import flow
@@ -426,6 +426,90 @@ def rule_nul(chk, prog, tier):
     r.exhaustive = True
 
 
+# ------------------------------------------------------------------ C19.j preprocessor at end of input
+
+PP_TEXTS = ['#pragma once x ( y', '#define F(a, b, ...) a + #b __VA_ARGS__', '#define OBJ 1 + ( 2', '#undef X', '#line 5 "f.c"', '# 7 "f.c" 1 2',
+            '#define F(a, b) a b\nF(1, (2, 3), 4)', '#define G(x) #x x\nG(G(1))', '#define E()\nE() E ( )', '#\n# 1\n#pragma\nx', '#define S(x) #x\nS( "a" \'b\' )']
+
+
+def rule_pp_eof(chk, prog, tier):
+    r = chk.rule('C19.j', 'the preprocessor terminates (token or diagnostic) when the input ends at any point inside a directive, a macro definition or a macro invocation - no loop waits for a newline or parenthesis that can no longer come',
+                 floor=100, oracle='end of input is sticky: scan() keeps returning TEOF')
+    from props import c12
+    import par
+    jobs = []
+    for text in PP_TEXTS:
+        raw = c12.lex(text)[:-2]          # drop the final newline and EOF the helper appends
+        for k in range(1, len(raw) + 1):
+            jobs.append((text, k, raw[:k] + [('TEOF', None, False)]))
+    def work(job):
+        text, k, raw = job
+        try:
+            run = c12.implementation(prog, text, raw=raw, max_steps=300000, extra={'tokendesc': lambda it, a, e: None})
+            return text, k, raw, run.outcome, str(run.detail)
+        except AnalysisBroken as x:
+            return text, k, raw, 'broken', str(x)
+    for text, k, raw, outcome, det in par.pmap(work, jobs):
+        shown = ' '.join((lit if lit is not None else c12.SPELL.get(kd, '\\n' if kd == 'TNEWLINE' else kd)) for kd, lit, _ in raw[:-1])
+        key = 'pp-eof:%s<EOF>' % shown
+        if outcome == 'unsupported':
+            raise AnalysisBroken('pp interpretation %s: %s' % (key, det))
+        if outcome == 'broken' and 'budget' not in det:
+            raise AnalysisBroken('pp interpretation %s: %s' % (key, det))
+        r.instance(outcome != 'broken', key, 'pp.c', 'does not terminate when the input ends here (%s)' % det)
+    r.exhaustive = False
+
+
+# ------------------------------------------------------------------ C19.k bounded diagnostics formatting
+
+def rule_tokendesc(chk, prog, tier):
+    r = chk.rule('C19.k', 'tokendesc() writes the description of a token of any length inside the caller\'s buffer: every snprintf starts at an offset inside the buffer and its size argument does not exceed what is left', floor=50,
+                 oracle='C11 7.21.6.5 (snprintf writes at most n bytes at s)')
+    fn = prog.require_func('tokendesc', 'token.c')
+    import re as _re
+    BUF = 64
+    kinds = ['TEOF', 'TIDENT', 'TNUMBER', 'TCHARCONST', 'TSTRINGLIT', 'TNEWLINE', 'TOTHER', 'TADD', 'TELLIPSIS', 'TWHILE']
+    for kind in kinds:
+        for n in (None, 1, 10, 50, 62, 63, 64, 65, 200, 5000):
+            if n is None and kind == 'TOTHER': continue
+            def runner(it):
+                buf = Obj('buf', 'local'); buf.bytebuf = True
+                for k in range(BUF): buf.f[(k,)] = 0
+                lit = None
+                if n is not None:
+                    lit = Ptr(it.mkstr([ord('a')] * n, 'lit'), (0,))
+                bad = []
+                def snprintf(i2, a, e):
+                    dest, size, fmt = a[0], a[1], bytes(read_cstr(i2, a[2])).decode()
+                    if not (isinstance(dest, Ptr) and dest.obj is buf and isinstance(dest.path[-1], int)):
+                        bad.append('destination %r is not inside the buffer' % (dest,)); return 0
+                    off = dest.path[-1]
+                    if not isinstance(size, int): raise Unsupported('symbolic snprintf size')
+                    if off < 0 or off > BUF or (size > 0 and off + size > BUF):
+                        bad.append('snprintf(buf%+d, %d, ...) exceeds the %d-byte buffer' % (off, size, BUF))
+                    args = list(a[3:]); out = ''; ai = 0; j = 0
+                    while j < len(fmt):
+                        if fmt[j] != '%': out += fmt[j]; j += 1; continue
+                        m = _re.match(r'%(0?\d*)([sxdc])', fmt[j:])
+                        if not m: raise Unsupported('format %r' % fmt)
+                        v = args[ai]; ai += 1
+                        if m.group(2) == 's': out += bytes(read_cstr(i2, v)).decode('latin-1')
+                        elif m.group(2) == 'x': out += ('%' + m.group(1) + 'x') % v
+                        elif m.group(2) == 'd': out += str(v)
+                        else: out += chr(v)
+                        j += m.end()
+                    return len(out)
+                it.models['snprintf'] = snprintf
+                it.call(fn, [Ptr(buf, (0,)), BUF, ev(prog, kind), lit])
+                return bad
+            runs = explore(prog, runner, {}, max_runs=4, on_unsupported='keep')
+            if len(runs) != 1 or runs[0].outcome != 'return':
+                raise AnalysisBroken('tokendesc(%s, %s): %s %s' % (kind, n, runs[0].outcome if runs else '?', runs[0].detail if runs else ''))
+            bad = runs[0].value
+            r.instance(not bad, 'tokendesc:%s,len=%s' % (kind, n), 'token.c:%s' % fn.get('line'), '; '.join(bad))
+    r.exhaustive = False
+
+
 def run(chk, tier):
     progs = facts.programs()
     prog = progs['cproc-qbe']
@@ -437,3 +521,5 @@ def run(chk, tier):
     chk.guard('C19.g', lambda: rule_flush(chk, prog, tier))
     chk.guard('C19.h', lambda: rule_percent_s(chk, prog, tier))
     chk.guard('C19.i', lambda: rule_nul(chk, prog, tier))
+    chk.guard('C19.j', lambda: rule_pp_eof(chk, prog, tier))
+    chk.guard('C19.k', lambda: rule_tokendesc(chk, prog, tier))
